@@ -380,6 +380,12 @@ class Lowerer:
             r = self.resolve_named(re.sub(r'\bconst\s+', '', name), depth + 1)
             if r[0] == 'rec':
                 return r
+        # clang's JSON dump prints the non-type template argument `true` of a bool parameter as -1 where the record is declared
+        # (a 1-bit signed rendering) but as `true` in type strings: integral_constant<bool, true> is the record <_Bool, -1>
+        if '_Bool, 1' in name and depth < 20:
+            r = self.resolve_named(re.sub(r'\b_Bool, 1\b', '_Bool, -1', name), 20)
+            if r[0] == 'rec':
+                return r
         # incomplete types (declared, never defined in this TU): opaque struct
         return ('opaque', name)
 
@@ -844,6 +850,19 @@ class Lowerer:
             return ('builtin', 'void')
         return self.rtype_s(ret_s)
 
+    def by_invisible_ref(self, pt):
+        """a by-value parameter of a class type that cannot be passed in registers (non-trivial copy/move constructor or
+        destructor): the caller constructs the object and passes its address (Itanium C++ ABI 3.1.2.3); a C struct copy would
+        break self-referential members (MemoryPoolList::pools_ designating its own preallocatedPools_)"""
+        if pt[0] != 'rec':
+            return False
+        dd = self.records[pt[1]].get('definitionData', {})
+        if not dd or dd.get('canPassInRegisters') or dd.get('isTriviallyCopyable'):
+            return False
+        # restricted to classes with a non-trivial destructor: their by-value arguments are always CXXBindTemporaryExpr nodes,
+        # which used to abort the lowering of the call (classes with only a user-provided copy constructor keep the C by-value form)
+        return bool(dd.get('dtor', {}).get('nonTrivial'))
+
     def prototype(self, n, cname):
         ft = self.fn_types(n)
         d = self.body_of.get(self.func_first(n['id']), n)
@@ -861,6 +880,8 @@ class Lowerer:
                 pt = ('ptr', pt[1])
             if pt[0] == 'arr':
                 pt = ('ptr', pt[1])
+            if self.by_invisible_ref(pt):
+                pt = ('ptr', pt)
             self.touch(pt)
             if pt[0] == 'rec':
                 self.use_record(pt[1])
@@ -1059,6 +1080,12 @@ class Lowerer:
                 args.append(nm)
             elif pt[0] == 'rec':
                 dd = self.records[pt[1]].get('definitionData', {})
+                if self.by_invisible_ref(pt):
+                    # the C side passes the address of a caller-constructed object (see by_invisible_ref): the real
+                    # parameter is move-constructed from it; the caller's object stays valid and is destroyed by the caller
+                    cparams.append('void* ' + nm)
+                    args.append('static_cast<%s&&>(*reinterpret_cast<%s*>(%s))' % (cpp, cpp, nm))
+                    continue
                 if not (dd.get('isTriviallyCopyable') or dd.get('canPassInRegisters')):
                     raise LowerError('non-trivially-copyable by-value parameter')
                 cparams.append('%s %s' % (cpp, nm))
@@ -1086,6 +1113,10 @@ class Lowerer:
             if k == 'FunctionDecl' and len(args) == 2 and name in ('operator==', 'operator!=', 'operator<', 'operator<=', 'operator>', 'operator>='):
                 # free comparison operators are mostly hidden friends (found by ADL only): call them in infix form
                 call = '((%s) %s (%s))' % (args[0], name[len('operator'):], args[1])
+            elif k == 'FunctionDecl' and not name.startswith('operator') and args and not targs and self.is_hidden_friend(n):
+                # a friend function defined inside its class (hidden friend, e.g. swap(JsonDocument&, JsonDocument&)) is not a
+                # member of the enclosing namespace: only argument-dependent lookup finds it
+                call = '%s(%s)' % (name, ', '.join(args))
         else:
             cls = scope[:-2]
             if k == 'CXXConversionDecl':
@@ -1094,6 +1125,9 @@ class Lowerer:
                 call = 'reinterpret_cast<%s*>(self)->%s%s%s(%s)' % (cls, 'template ' if targs else '', name, targs, ', '.join(args))
         if rt == ('builtin', 'void'):
             return 'extern "C" void %s(%s) {\n  %s;\n}\n' % (cname, ', '.join(cparams), call)
+        if rt[0] == 'rref':
+            # the address of an xvalue cannot be taken (`&move(x)` is ill-formed): bind it to a forwarding reference first
+            return 'extern "C" void* %s(%s) {\n  auto&& r_ = %s;\n  return (void*)&r_;\n}\n' % (cname, ', '.join(cparams), call)
         if rt[0] in ('ref', 'rref'):
             return 'extern "C" void* %s(%s) {\n  return (void*)&%s;\n}\n' % (cname, ', '.join(cparams), call)
         if rt[0] == 'enum':
@@ -1109,6 +1143,27 @@ class Lowerer:
         if rt[0] == 'builtin':
             return 'extern "C" %s %s(%s) {\n  return %s;\n}\n' % (rt[1].replace('_Bool', 'bool'), cname, ', '.join(cparams), call)
         raise LowerError('return type %r' % (rt,))
+
+    def is_hidden_friend(self, n):
+        """every declaration of the function is a friend declaration inside a class (none at namespace scope)"""
+        first = self.func_first(n['id'])
+        if (self.parent.get(first) or {}).get('kind') != 'FriendDecl':
+            return False
+        if not hasattr(self, '_redecls'):
+            self._redecls = {}
+            for nid, f in self.first_of.items():
+                self._redecls.setdefault(f, []).append(nid)
+        if not all((self.parent.get(x) or {}).get('kind') == 'FriendDecl' for x in self._redecls.get(first, []) + [first]):
+            return False
+        # ... and no function or function template of that name is declared at namespace scope (a qualified call then cannot
+        # compile at all; where one exists the qualified form is kept as it was)
+        if not hasattr(self, '_ns_func_names'):
+            self._ns_func_names = set()
+            for x in self.byid.values():
+                if x.get('kind') in ('FunctionDecl', 'FunctionTemplateDecl') and x.get('name') and \
+                        (self.parent.get(x.get('id')) or {}).get('kind') in ('NamespaceDecl', 'TranslationUnitDecl', 'LinkageSpecDecl'):
+                    self._ns_func_names.add(x['name'])
+        return n.get('name') not in self._ns_func_names
 
     def shim_forwarder(self, cname, first):
         """C++ definition of a body-less member (stub type declared in /verif/tu) forwarding to the C stub of the spec"""
@@ -1375,6 +1430,7 @@ class FuncLowerer:
         self.ret_is_ref = False
         self.ret_type = None
         self.local_names = set()
+        self.full_expr = None      # temporaries with non-trivial destructors of the full-expression being lowered
 
     # ---- helpers
     def err(self, msg, n=None):
@@ -1426,10 +1482,13 @@ class FuncLowerer:
             rec = L.method_record(n)
             for ci in inits:
                 pre.extend(self.lower_ctor_init(ci, rec))
-        elif k == 'CXXDestructorDecl':
+        post = []
+        if k == 'CXXDestructorDecl':
             rec = L.method_record(n)
-            self.check_dtor_members(rec)
-        inner = self.lower_compound_items(body)
+            post = self.check_dtor_members(rec)
+            if post and any(x.get('kind') == 'ReturnStmt' for x in walk(body)):
+                self.err('destructor of %s returns early and has members with destructors' % rec)
+        inner = self.lower_compound_items(body) + post
         tmps = self.block_tmps.pop()
         out = [proto, '{']
         out.extend('  ' + t for t in tmps)
@@ -1443,16 +1502,40 @@ class FuncLowerer:
         return '\n'.join(out) + '\n'
 
     def check_dtor_members(self, rec):
+        """statements that run after the destructor body: the destructors of the non-static data members, in reverse order of
+        declaration (members whose destructor is trivial or effectively empty need none)"""
         L = self.L
         n = L.records[rec]
+        calls = []
         for f in L.record_fields(n):
             ft = L.rtype(f['type'])
+            is_arr = ft[0] == 'arr'
             while ft[0] == 'arr':
                 ft = ft[1]
             if ft[0] == 'rec' and self.nontrivial_dtor(ft[1]):
-                # member destructors run after the body; only accept if the member dtor body is effectively empty
+                # member destructors run after the body; nothing to emit if the member dtor body is effectively empty
                 if not self.dtor_is_noop(ft[1]):
-                    self.err('destructor of %s must run member destructor of %s (not supported)' % (rec, ft[1]))
+                    if is_arr or not f.get('name'):
+                        self.err('destructor of %s must run member destructor of %s (array or unnamed member: not supported)' % (rec, ft[1]))
+                    calls.append('%s(&self->%s);' % (self.dtor_cname(ft[1], 'member %s of %s' % (f['name'], rec)), f['name']))
+        if calls:
+            for b in L.record_bases(n):
+                if self.nontrivial_dtor(b) and not self.dtor_is_noop(b):
+                    self.err('destructor of %s must run base destructor of %s (not supported)' % (rec, b))
+        calls.reverse()
+        return calls
+
+    def dtor_cname(self, rec, what):
+        """C name of the destructor of record `rec` (user-provided, or implicit with a body synthesised by clang)"""
+        L = self.L
+        for c in L.records[rec].get('inner', ()):
+            if isinstance(c, dict) and c.get('kind') == 'CXXDestructorDecl':
+                if L.func_first(c['id']) not in L.body_of:
+                    self.err('destructor of %s (%s) has no body in the AST' % (rec, what))
+                cname = L.require(c['id'])
+                L.call_edges.add((self.cname.split('/')[0], cname))
+                return cname
+        self.err('destructor of %s (%s) not found' % (rec, what))
 
     def nontrivial_dtor(self, rec):
         dd = self.L.records[rec].get('definitionData', {})
@@ -1518,7 +1601,11 @@ class FuncLowerer:
                 target = 'self->_b_%s' % sanitize(bt[1])
             out.extend(self.init_object(target, bt, kids[0]))
         elif 'delegatingInit' in ci:
-            self.err('delegating constructor', ci)
+            # T(args) : T(other args) { body }  ->  the target constructor runs on the same object, then the body
+            dt = L.rtype(ci['delegatingInit'])
+            if dt != ('rec', rec) or not kids or self.skip_cleanups(kids[0]).get('kind') != 'CXXConstructExpr':
+                self.err('delegating constructor of unexpected shape', ci)
+            out.extend(self.construct_into('self', self.skip_cleanups(kids[0])))
         else:
             self.err('unknown ctor initializer', ci)
         return out
@@ -1613,7 +1700,9 @@ class FuncLowerer:
             if e.get('kind') == 'CXXBindTemporaryExpr':
                 t = self.ty(e)
                 if t[0] == 'rec' and self.nontrivial_dtor(t[1]) and not self.dtor_is_noop(t[1]):
-                    self.err('temporary with non-trivial destructor', e)
+                    if self.full_expr is None or e['id'] not in self.full_expr['allowed']:
+                        self.err('temporary with non-trivial destructor', e)
+                    self.full_expr['seen'].add(e['id'])
             ks = self.kids(e)
             if not ks:
                 break
@@ -1765,11 +1854,63 @@ class FuncLowerer:
                 a = self.default_arg(callee, i, a)
             if L.is_ref(pt):
                 out.append(self.addr_of(a))
+            elif L.by_invisible_ref(pt):
+                out.append(self.invisible_ref_arg(a, pt))
             else:
                 out.append(self.rv(a))
         if len(args) < len(ptypes):
             self.err('missing arguments for %s' % callee.get('name'))
         return out
+
+    def invisible_ref_arg(self, a, pt):
+        """argument for a by-value parameter passed by invisible reference: the parameter object is constructed by the caller
+        in a temporary, its address is passed, and it is destroyed at the end of the full-expression"""
+        fe = self.full_expr
+        if a.get('kind') != 'CXXBindTemporaryExpr' or fe is None or a['id'] not in fe['allowed']:
+            self.err('by-value argument of class type %s (non-trivial copy/destructor) outside a supported full-expression' % pt[1], a)
+        sub = self.kids(a)[0]
+        if sub.get('kind') not in ('CXXConstructExpr', 'CXXTemporaryObjectExpr'):
+            self.err('by-value argument of class type %s is not a constructor call' % pt[1], a)
+        tmp = self.new_tmp(pt)
+        stmts = [x.rstrip(';') for x in self.construct_into('&' + tmp, sub)]
+        fe['seen'].add(a['id'])
+        self.register_temp_dtor(a, pt[1], tmp)
+        return '(%s)' % ', '.join(stmts + ['&' + tmp])
+
+    # ---- temporaries of class types with non-trivial destructors (restricted form)
+    def begin_full_expr(self, e):
+        """e: the expression of an expression statement or the initialiser of a local variable. Temporaries with non-trivial
+        destructors that are created UNCONDITIONALLY inside it are destroyed right after the statement, in reverse order of
+        construction; any other position of such a temporary keeps aborting the lowering."""
+        if e.get('kind') != 'ExprWithCleanups' or self.full_expr is not None:
+            return False
+        allowed = set()
+
+        def scan(x, cond):
+            k = x.get('kind')
+            if k in ('LambdaExpr', 'StmtExpr'):
+                return
+            if k == 'CXXBindTemporaryExpr' and not cond:
+                allowed.add(x['id'])
+            for i, c in enumerate(self.kids(x)):
+                c_cond = cond or (k in ('ConditionalOperator', 'BinaryConditionalOperator') and i > 0) or \
+                    (k == 'BinaryOperator' and x.get('opcode') in ('&&', '||') and i > 0)
+                scan(c, c_cond)
+        scan(e, False)
+        self.full_expr = {'allowed': allowed, 'seen': set(), 'registered': set(), 'dtors': []}
+        return True
+
+    def end_full_expr(self):
+        fe = self.full_expr
+        self.full_expr = None
+        if fe['seen'] - fe['registered']:
+            self.err('temporary with non-trivial destructor in an unsupported position')
+        return list(reversed(fe['dtors']))
+
+    def register_temp_dtor(self, bind, rec, tmp):
+        fe = self.full_expr
+        fe['dtors'].append('%s(&%s);' % (self.dtor_cname(rec, 'temporary'), tmp))
+        fe['registered'].add(bind['id'])
 
     def default_arg(self, callee, i, a):
         L = self.L
@@ -1836,6 +1977,18 @@ class FuncLowerer:
         if first.get('kind') == 'CXXMethodDecl' and first.get('name') == 'operator=' and \
                 (first.get('isImplicit') or first.get('explicitlyDefaulted') == 'default') and L.func_first(first['id']) not in L.body_of:
             return '(*%s = %s)' % (paren(cargs[0]), self.rv(args[0])), True
+        # implicit copy/move assignment of a UNION: clang synthesises a body that assigns no member (`return *this;`) because
+        # code generation copies the object representation of a trivially-assignable union; lowering that body would drop the copy
+        if first.get('kind') == 'CXXMethodDecl' and first.get('name') == 'operator=' and \
+                (first.get('isImplicit') or first.get('explicitlyDefaulted') == 'default') and not static:
+            mrec_u = L.method_record(first)
+            if mrec_u is not None and L.records[mrec_u].get('tagUsed') == 'union':
+                ddu = L.records[mrec_u].get('definitionData', {})
+                pu = L.fn_types(first)[2]
+                keyu = 'moveAssign' if (pu and pu[0][0] == 'rref') else 'copyAssign'
+                if not ddu.get(keyu, {}).get('trivial'):
+                    self.err('non-trivial implicit assignment of union %s' % mrec_u, e)
+                return '(*%s = %s)' % (paren(cargs[0]), self.rv(args[0])), True
         cname = L.require(callee['id'])
         L.call_edges.add((self.cname.split('/')[0], cname))
         if cname in LIBC or cname.startswith('__builtin_'):
@@ -1998,6 +2151,8 @@ class FuncLowerer:
                 name = self.global_const(d)
                 return name, False
         if L.is_ref(t):
+            return '(*%s)' % name, True
+        if d.get('kind') == 'ParmVarDecl' and L.by_invisible_ref(t):
             return '(*%s)' % name, True
         return name, True
 
@@ -2240,15 +2395,22 @@ class FuncLowerer:
         return self.cast(e)
 
     def e_MaterializeTemporaryExpr(self, e):
-        sub = self.skip_cleanups(self.kids(e)[0])
+        raw = self.kids(e)[0]
+        sub = self.skip_cleanups(raw)
         t = self.L.strip_ref(self.ty(e))
         if t[0] == 'arr':
             self.err('array temporary', e)
         k = sub.get('kind')
+        bind = None  # the temporary has a non-trivial destructor that must run at the end of the full-expression
+        if raw.get('kind') == 'CXXBindTemporaryExpr' and self.full_expr is not None and raw['id'] in self.full_expr['seen'] \
+                and self.kids(raw)[0] is sub:
+            bind = raw
         if k in ('CXXConstructExpr', 'CXXTemporaryObjectExpr'):
             recname, ctor = self.find_ctor(sub)
             if not self.ctor_is_trivial_copy(recname, ctor, sub):
                 tmp = self.new_tmp(t)
+                if bind is not None and t[0] == 'rec':
+                    self.register_temp_dtor(bind, t[1], tmp)
                 stmts = [s.rstrip(';') for s in self.construct_into('&' + tmp, sub)]
                 if not stmts:
                     return tmp, True
@@ -2384,7 +2546,11 @@ class FuncLowerer:
         if 'valueCategory' in s or k.endswith('Expr') or k.endswith('Operator') or k.endswith('Literal'):
             if self.is_void_zero(s):
                 return []
-            return [self.rv(s) + ';']
+            fe = self.begin_full_expr(s)
+            lines = [self.rv(s) + ';']
+            if fe:
+                lines.extend(self.end_full_expr())
+            return lines
         self.err('unsupported statement kind %s' % k, s)
 
     def s_CompoundStmt(self, s):
@@ -2408,6 +2574,16 @@ class FuncLowerer:
         return out
 
     def vardecl(self, d):
+        ks0 = [c for c in self.kids(d) if c.get('kind') not in ('FullComment',)]
+        fe = False
+        if ks0 and d.get('name') and d.get('storageClass') != 'static' and not self.L.is_ref(self.L.rtype(d['type'])):
+            fe = self.begin_full_expr(ks0[0])
+        lines = self.vardecl_inner(d)
+        if fe:
+            lines = lines + self.end_full_expr()
+        return lines
+
+    def vardecl_inner(self, d):
         L = self.L
         t = L.rtype(d['type'])
         if d.get('name'):
